@@ -135,6 +135,20 @@ CHECKS = {
             'precedence table: exactly the expected target ran, once, with '
             'the documented argument prefix; reserved events never reach a '
             'catch-all event handler.'),
+    'C15': ('DESIGN 4/C15',
+            'Seeded search over channel sequences written by a foreign '
+            'publisher into the simulated bus of 1-2 real servers (both '
+            'kinds): random bytes, truncated / bit-flipped pickles, pickles '
+            'and JSON of non-dicts, dicts with missing or mistyped fields, '
+            'unknown methods, echoes carrying the server\'s own host id, '
+            'callbacks for other hosts / unknown ids / malformed, valid '
+            'messages whose application callback or disconnect handler '
+            'raises, and failures of the listen iterator itself; after every '
+            'item a sentinel emit. Oracle = every sentinel delivered exactly '
+            'once (bounded liveness), listener consumed the whole channel, '
+            'own echoes not re-applied, misaddressed callbacks do not fire. '
+            '(Byte strings that make pickle itself allocate unboundedly are '
+            'excluded - a hazard of pickle, stated in DESIGN.)'),
     'C16': ('DESIGN 4/C16',
             'Seeded search over histories of save_session / get_session / '
             'session() blocks (directly and through class-based namespace '
